@@ -346,9 +346,13 @@ func checkF3(c *fw.Ctx) {
 	if fn := mustFunc(c, rule, "CheckFields"); fn != nil {
 		ok := false
 		for _, r := range fw.Returns(fn) {
-			conds := condsOf(r.Block())
-			if strings.Contains(conds, "!(github.com/tidwall/gjson.Result).IsObject(") && strings.Contains(fw.Sig(r.Results[0]), "errors.New(") {
-				ok = true
+			if cst, isC := r.Results[0].(*ssa.Const); isC && cst.Value == nil {
+				continue // a success return
+			}
+			for _, ob := range fw.ExitOrigins(r, 0) {
+				if strings.Contains(condsOf(ob), "!(github.com/tidwall/gjson.Result).IsObject(") {
+					ok = true
+				}
 			}
 		}
 		c.Check(ok, rule, "CheckFields rejects events whose content is not a JSON object", c.P.Pos(fn.Pos()), "", "no rejection of non-object content: redaction decodes content into a map, so EventID(), Redact() and Sign() panic on such an event")
